@@ -483,10 +483,7 @@ func (r *rtRun) ServeHTTP(w http.ResponseWriter, req *http.Request) {
 	}
 	off, ci := 0, 0
 	for off < len(body) {
-		n := e.RChunks[ci%len(e.RChunks)]
-		if n == 0 && ci > 2*len(e.RChunks) {
-			n = 1500
-		}
+		n := chunkAt(e.RChunks, ci)
 		if off+n > len(body) {
 			n = len(body) - off
 		}
@@ -587,10 +584,7 @@ func (r *rtRun) client(env *env, idx int, wg *sync.WaitGroup) {
 			defer wwg.Done()
 			off, ci := 0, 0
 			for off < len(data) {
-				n := e.BChunks[ci%len(e.BChunks)]
-				if n == 0 && ci > 2*len(e.BChunks) {
-					n = 1500
-				}
+				n := chunkAt(e.BChunks, ci)
 				ci++
 				if off+n > len(data) {
 					n = len(data) - off
